@@ -90,6 +90,10 @@ def check_prog(ctx, r, prog, n):
             continue
         rep = {"id": uid, "payload": b64(rand_bytes(rng)), "gas_used": 1,
                "result": rng.choice([{"ok": {"events": [], "data": None, "msg_responses": []}}, {"error": "x"}])}
+        good = [mm[3] for mm in meta if mm[0] is not None]
+        if good and it % 2 == 0:
+            # a reply that is well-formed for one of the known handlers (payload, data, outcome), under an id nobody registered
+            rep = dict(rng.choice(good), id=uid)
         path = paths[it % len(paths)]
         cmds.append({"prog": pn, "op": path, "reply": rep, "world": draw_world(rng), "env": draw_env(rng), "plan": None})
         meta.append((None, None, None, rep, None, ("unknown", uid), path, None, None))
